@@ -129,6 +129,19 @@ def yLabel : Val → Option String
   | .cell (.int n) => some (toString n)
   | _ => none
 
+/-- the x part of an `(x.., y)` key tuple -/
+def xPart (nx : Nat) : Val → Val
+  | .tuple vs => .tuple (vs.take nx)
+  | v => v
+
+/-- `res[i][k]` for one x-group (`yids`: its `(x, y)` groups) and one label (`yk`: the label's key):
+the aggregated z values of the `(x, y)` group whose y value is the label's, `None` if there is none
+(lines 1295-1303; the last assignment wins) -/
+def pivotCell (xyg : List Grp) (nx : Nat) (zs : List Cell) (agg : Agg) (yids : List Nat) (yk : Val) : Val :=
+  match (yids.filter fun j => cmp (.tuple [tupleGet nx (xyg.getD j (.cell .none, [])).1]) yk == .eq).getLast? with
+  | Option.none => .cell .none
+  | some j => agg.apply (((xyg.getD j (.cell .none, [])).2).map fun i => zs.getD i .none)
+
 /-- `d.xyz(x, y, z, agg)` (lines 1282-1307) for a table with at least one row, `x` column names,
 `y` and `z` one column name each.  `none`: outside the modelled domain. -/
 def Table.pivot (t : Table) (x : List String) (y z : String) (agg : Agg) : Option (Res VTable) :=
@@ -140,23 +153,16 @@ def Table.pivot (t : Table) (x : List String) (y z : String) (agg : Agg) : Optio
     let xyg := listbyG xykeys                       -- xys, ids
     let nx := x.length
     -- rs: one row per distinct (x.., y); its x-key and its y value
-    let rsX : List Val := xyg.map fun g => match g.1 with
-      | .tuple vs => .tuple (vs.take nx)
-      | v => v
+    let rsX : List Val := xyg.map fun g => xPart nx g.1
     let rsY : List Val := xyg.map fun g => tupleGet nx g.1
     let ys := listbyG (rsY.map fun v => .tuple [v])  -- distinct y values, sorted
     let xg := listbyG rsX                            -- xs, yids
-    let cell (yids : List Nat) (yk : Val) : Val :=
-      -- the last (x, y) group of this x whose y value is the label's (`res[i][k] = value`)
-      match (yids.filter fun j => cmp (.tuple [rsY.getD j (.cell .none)]) yk == .eq).getLast? with
-      | Option.none => .cell .none
-      | some j => agg.apply (((xyg.getD j (.cell .none, [])).2).map fun i => zs.getD i .none)
     match ys.mapM fun g => yLabel (tupleGet 0 g.1) with
     | Option.none => none
     | some labels =>
       if ¬ (x ++ labels).Nodup then none else
       some (.ok (keyColsOf x xg ++
-        (labels.zip ys).map fun (lab, yg) => (lab, xg.map fun g => cell g.2 yg.1)))
+        (labels.zip ys).map fun (lab, yg) => (lab, xg.map fun g => pivotCell xyg nx zs agg g.2 yg.1)))
 
 /-- `p.unpivot(x, y, z)` (lines 1337-1348) -/
 def VTable.unpivot (p : VTable) (x : List String) (y z : String) : Res VTable :=
